@@ -174,6 +174,7 @@ class SystemGPGEnvironment:
                 spl = line.split(b' ', 2)
                 if spl[1] in (b'TRUST_MARGINAL',
                               b'TRUST_FULL',
+                              b'TRUST_FULLY',
                               b'TRUST_ULTIMATE'):
                     is_trusted = True
 
